@@ -18,7 +18,7 @@ import (
 )
 
 func keys(x *mon.Ctx) {
-	e := setup(x, x.Scale(12, 48))
+	e := setup(x, x.Scale(12, 48), true)
 	nm1, nm2 := sub(ec.N, one), sub(ec.N, two)
 
 	privCase := func(c *mon.Case, b []byte) {
@@ -189,8 +189,11 @@ func keys(x *mon.Ctx) {
 		c.End()
 	}
 	reps := x.Scale(3, 40)
-	for _, q := range pts {
+	for _, q := range append(append([]*npoint{}, pts...), e.ps.sparse...) {
 		for rep := 0; rep < reps; rep++ {
+			if rep > 0 && q.kind != "random" && q.kind != "extreme" && !x.Thorough() {
+				break
+			}
 			c := x.Begin("ECDH: random d, Q=%s rep=%d", q.name, rep)
 			if c == nil {
 				continue
